@@ -176,6 +176,9 @@ type c38Machine struct {
 	// what the disk holds, following the storage calls that were applied:
 	// group -> member -> rendering (last write wins)
 	storage map[int]map[group.MemberIndex]string
+	// what must survive, following the API: RegisterGroup returned nil for
+	// (group, member) and no archival of the group was applied since
+	registered map[int]map[group.MemberIndex]string
 
 	archives, crashes, failures, restarts, sweeps, chainErrors, latestSkipped, overwrites int
 	archiveSinceRestart, crashSinceRestart, ntRestart                                     bool
@@ -254,6 +257,22 @@ func (m *c38Machine) afterRestart() {
 			}
 		}
 	}
+	// the other direction: every membership registered successfully (API
+	// returned nil) and not archived must have come back
+	for g := range m.groups {
+		got := m.reg.GetGroup(m.groups[g].key)
+		for id, rec := range m.registered[g] {
+			found := false
+			for _, ms := range got {
+				if ms != nil && ms.Signer != nil && ms.Signer.MemberID() == id && c38Render(ms) == rec {
+					found = true
+				}
+			}
+			if !found {
+				m.fail("after restart: RegisterGroup had returned success for group %d member %d and the group was not archived, but the restarted registry does not hold that membership with its key material (%d memberships loaded)", g, id, len(got))
+			}
+		}
+	}
 	m.known("after restart")
 }
 
@@ -277,7 +296,7 @@ func TestVerif_C38_GroupRegistry(t *testing.T) {
 			t.Fatalf("VERIF-INCONCLUSIVE: %v", err)
 		}
 		defer os.RemoveAll(dir)
-		m := &c38Machine{t: t, dir: dir, storage: map[int]map[group.MemberIndex]string{}}
+		m := &c38Machine{t: t, dir: dir, storage: map[int]map[group.MemberIndex]string{}, registered: map[int]map[group.MemberIndex]string{}}
 		used := map[int64]bool{}
 		for g := 0; g < 3; g++ {
 			k := rapid.Int64Range(1, 1<<40).Draw(t, "groupKey")
@@ -298,6 +317,7 @@ func TestVerif_C38_GroupRegistry(t *testing.T) {
 			m.groups = append(m.groups, c38Group{pk: pk, key: signer.GroupPublicKeyBytes(),
 				dir: fmt.Sprintf("%x", signer.GroupPublicKeyBytesCompressed()), shares: shares, ops: ops})
 			m.storage[g] = map[group.MemberIndex]string{}
+			m.registered[g] = map[group.MemberIndex]string{}
 		}
 		m.open()
 		m.afterRestart()
@@ -325,7 +345,7 @@ func TestVerif_C38_GroupRegistry(t *testing.T) {
 				rec := c38Render(&Membership{Signer: signer, ChannelName: channel})
 				m.disk.nextSave = outcome
 				savedBefore := m.disk.savedOK
-				_, crashed := m.call(func() error { return m.reg.RegisterGroup(signer, channel) })
+				err, crashed := m.call(func() error { return m.reg.RegisterGroup(signer, channel) })
 				m.disk.nextSave = "ok"
 				m.logf("register(g%d,m%d,%s)", g, id, outcome)
 				if m.disk.savedOK > savedBefore {
@@ -333,6 +353,12 @@ func TestVerif_C38_GroupRegistry(t *testing.T) {
 						m.overwrites++
 					}
 					m.storage[g][id] = rec
+					if _, ok := m.registered[g][id]; ok {
+						m.registered[g][id] = rec
+					}
+				}
+				if err == nil && !crashed {
+					m.registered[g][id] = rec
 				}
 				if outcome == "fail" {
 					m.failures++
@@ -383,6 +409,7 @@ func TestVerif_C38_GroupRegistry(t *testing.T) {
 				for k := range m.groups {
 					if applied[m.groups[k].dir] {
 						m.storage[k] = map[group.MemberIndex]string{}
+						m.registered[k] = map[group.MemberIndex]string{}
 						m.archives++
 						m.archiveSinceRestart = true
 					}
